@@ -31,6 +31,7 @@ import (
 
 	"verifmon/fw"
 	"verifmon/pdus"
+	"verifmon/ref"
 )
 
 // C03 — decoding untrusted bytes never panics, hangs or over-allocates; truncated
@@ -309,6 +310,13 @@ func lengthOffsets(t *pdus.Type, v *pdus.Values) (offs []int, widths []int) {
 	return
 }
 
+// reusedTarget decodes every input of one case into the SAME PDU object (a recycled PDU): state left behind by an
+// earlier decode must not make a later one panic, spin or over-allocate.
+func reusedTarget(t *pdus.Type) target {
+	obj := t.New()
+	return target{name: t.Family + "." + t.Go + ".IDecode(reused object)", call: func(b []byte) error { return obj.IDecode(b) }}
+}
+
 func seedImage(c *fw.Case, ts *pdus.Tables) (*pdus.Type, *pdus.Values, []byte) {
 	t := typeIdx(ts, c.Idx)
 	force, class := -1, 0
@@ -371,7 +379,7 @@ func init() {
 				Run: func(c *fw.Case) {
 					s := c03st(c.W)
 					t, _, img := seedImage(c, ts())
-					tt, dd := s.byType[t.Family+"."+t.Go], s.byFamily[t.Family]
+					tt, dd, ru := s.byType[t.Family+"."+t.Go], s.byFamily[t.Family], reusedTarget(t)
 					mand := pdus.MandatoryLen(t, img)
 					for cut := 0; cut <= len(img); cut++ {
 						err, _ := monitor(c, tt, img[:cut])
@@ -383,6 +391,7 @@ func init() {
 							c.Count("cuts_inside_mandatory", 1)
 						}
 						derr, _ := monitor(c, dd, img[:cut])
+						monitor(c, ru, img[:cut])
 						if cut < mand && derr == nil {
 							c.Failf("truncated-accepted/Decode/"+t.Family+"/"+t.Go, "dispatcher accepted %s cut at %d of %d (mandatory part %d)\ninput=%s", t.Key(), cut, len(img), mand, hx(img[:cut]))
 						}
@@ -395,7 +404,7 @@ func init() {
 				Run: func(c *fw.Case) {
 					s := c03st(c.W)
 					t, v, img := seedImage(c, ts())
-					tt, dd := s.byType[t.Family+"."+t.Go], s.byFamily[t.Family]
+					tt, dd, ru := s.byType[t.Family+"."+t.Go], s.byFamily[t.Family], reusedTarget(t)
 					offs, widths := lengthOffsets(t, v)
 					for i, off := range offs {
 						var vals []uint64
@@ -425,6 +434,7 @@ func init() {
 							}
 							err, _ := monitor(c, tt, m)
 							monitor(c, dd, m)
+							monitor(c, ru, m)
 							c.Cover(fmt.Sprintf("lengthfields/%s/w%d/%s", t.Key(), widths[i], outcome(err)))
 						}
 					}
@@ -435,7 +445,7 @@ func init() {
 				Run: func(c *fw.Case) {
 					s := c03st(c.W)
 					t, v, img := seedImage(c, ts())
-					tt, dd := s.byType[t.Family+"."+t.Go], s.byFamily[t.Family]
+					tt, dd, ru := s.byType[t.Family+"."+t.Go], s.byFamily[t.Family], reusedTarget(t)
 					if len(img) > 220 {
 						img = img[:220]
 					}
@@ -458,6 +468,7 @@ func init() {
 							m[off] = x
 							err, _ := monitor(c, tt, m)
 							monitor(c, dd, m)
+							monitor(c, ru, m)
 							c.Cover(fmt.Sprintf("octets/%s/%s", t.Key(), outcome(err)))
 						}
 					}
@@ -468,7 +479,7 @@ func init() {
 				Run: func(c *fw.Case) {
 					s := c03st(c.W)
 					t, _, img := seedImage(c, ts())
-					tt, dd := s.byType[t.Family+"."+t.Go], s.byFamily[t.Family]
+					tt, dd, ru := s.byType[t.Family+"."+t.Go], s.byFamily[t.Family], reusedTarget(t)
 					for n := 1; n <= 16; n++ {
 						m := append(append([]byte(nil), img...), c.R.Bytes(n)...)
 						if c.R.Bool() {
@@ -476,6 +487,7 @@ func init() {
 						}
 						err, _ := monitor(c, tt, m)
 						monitor(c, dd, m)
+						monitor(c, ru, m)
 						c.Cover(fmt.Sprintf("garbage/%s/%s", t.Key(), outcome(err)))
 					}
 				},
@@ -486,7 +498,7 @@ func init() {
 					// unguided stand-in for a fuzzer's havoc phase: 1..8 stacked random edits of a reference image
 					s := c03st(c.W)
 					t, _, img := seedImage(c, ts())
-					tt, dd := s.byType[t.Family+"."+t.Go], s.byFamily[t.Family]
+					tt, dd, ru := s.byType[t.Family+"."+t.Go], s.byFamily[t.Family], reusedTarget(t)
 					r := c.R
 					for round := 0; round < 6; round++ {
 						m := append([]byte(nil), img...)
@@ -530,6 +542,7 @@ func init() {
 						}
 						err, _ := monitor(c, tt, m)
 						monitor(c, dd, m)
+						monitor(c, ru, m)
 						c.Cover(fmt.Sprintf("havoc/%s/%s", t.Key(), outcome(err)))
 					}
 				},
@@ -748,6 +761,41 @@ var receiptWords = []string{"id:", "sub:", "dlvrd:", "submit date:", "done date:
 
 func textInput(c *fw.Case) ([]byte, string) {
 	r := c.R
+	if r.Chance(1, 4) {
+		// VALID encoded text (and valid text with its last octets cut or one octet changed): the deep paths of the
+		// text decoders are only reached by input that is mostly right
+		t, _ := randomText(r, 120)
+		var b []byte
+		kind := ""
+		switch r.Intn(5) {
+		case 0:
+			b, kind = refSeptets(t), "valid-gsm7-septets"
+		case 1:
+			b, kind = refPacked(t), "valid-gsm7-packed"
+		case 2:
+			b, kind = refUTF16(t), "valid-ucs2"
+		case 3:
+			b, _ = datacoding.GB18030(t).Encode()
+			kind = "valid-gb18030"
+		default:
+			b, _ = datacoding.Latin1(t).Encode()
+			kind = "valid-latin1"
+		}
+		switch r.Intn(4) {
+		case 0:
+			if len(b) > 0 {
+				b = b[:len(b)-1-r.Intn(min(len(b), 3))]
+				kind += "-cut"
+			}
+		case 1:
+			if len(b) > 0 {
+				b = append([]byte(nil), b...)
+				b[r.Intn(len(b))] = byte(r.Pick(0, 0x1b, 0x65, 0x7f, 0x80, 0xd8, 0xdc, 0xff))
+				kind += "-1changed"
+			}
+		}
+		return b, kind
+	}
 	switch r.Intn(8) {
 	case 0, 1, 2: // receipt-like token soup
 		var b []byte
@@ -943,3 +991,18 @@ func readFuzzFile(path string) (sel int, data []byte, ok bool) {
 	}
 	return sel, data, true
 }
+
+func refSeptets(t string) []byte {
+	tab := ref.GSM7()
+	var out []byte
+	for _, r := range t {
+		if e, ok := tab.FromRun[r]; ok {
+			out = append(out, e...)
+		}
+	}
+	return out
+}
+
+func refPacked(t string) []byte { return ref.Pack(refSeptets(t)) }
+
+func refUTF16(t string) []byte { return ref.UTF16BE(t) }
